@@ -100,6 +100,7 @@ RISK_AGG = 'bodyless_aggregation_layout'
 # generated @OrderBy annotation and get rewritten twice) while the C++ parser accepts.
 # VERIF_SYNTAX_WIDEN_DEN_AGG=1 generates the shape again (C06 then reports the bucket
 # cpp_accepts_py_internal:KeyError:parse.py:Convert).
+EXCLUDE_COMPACT_NEQ = os.environ.get('VERIF_SYNTAX_EXCLUDE_COMPACT_NEQ', '1') != '0'
 DENOTATION_AGG_NEEDS_BODY = os.environ.get('VERIF_SYNTAX_WIDEN_DEN_AGG', '1') != '1'   # widened by default since fix 35d3486
 
 # DOMAIN RESTRICTION (not a finding).  '..' literals are Python literals for the Python
@@ -534,6 +535,10 @@ class Gen(object):
         right = self.expr(d + 1, noeq=noeq, operand=True)
         compact = (self.p(0.15) and self._atomic_end(left) and self._atomic_start(right)
                    and not self._neg(right))
+        if compact and op == '!=' and EXCLUDE_COMPACT_NEQ:
+            # open known finding C15 compact_neq_after_literal (see lv/props/c15.py)
+            self.excluded['finding:compact_neq_after_literal'] += 1
+            compact = False
         if compact:
             self.feat('compact_operator')
         pre = '' if compact else ' '
